@@ -23,8 +23,16 @@ def make_input(rng):
     queries = []
     for i, t in enumerate(rng.sample(names, len(names))):
         cols = tables[t]
-        kind = rng.choice(["get", "list", "del", "ins"])
-        if kind == "get" and rng.random() < 0.4:
+        kind = rng.choice(["get", "list", "del", "ins", "cte", "alias"])
+        if kind == "cte":
+            # a CTE named like the table it reads, exposing fewer columns: whatever a query's WITH clause defines must not
+            # be visible to the other queries of the run, in any order
+            queries.append("-- name: Cte%s%d :many\nWITH %s AS (SELECT id FROM %s WHERE id = $1) SELECT * FROM %s;" % (t.title().replace("_", ""), i, t, t, t))
+            if rng.random() < 0.7:
+                queries.append("-- name: All%s%d :many\nSELECT * FROM %s;" % (t.title().replace("_", ""), i, t))
+        elif kind == "alias":
+            queries.append("-- name: Ali%s%d :many\nSELECT x.* FROM %s x WHERE x.%s = $1;" % (t.title().replace("_", ""), i, t, cols[-1]))
+        elif kind == "get" and rng.random() < 0.4:
             queries.append("-- name: Get%s%d :one\nSELECT *, 'café ☃' AS note FROM %s WHERE id = $1;" % (t.title().replace("_", ""), i, t))
         elif kind == "get":
             queries.append("-- name: Get%s%d :one\nSELECT * FROM %s WHERE id = $1;" % (t.title().replace("_", ""), i, t))
@@ -39,6 +47,19 @@ def make_input(rng):
     if rng.random() < 0.5:
         ov = [{"go_type": "github.com/a/pkg.T", "db_type": "uuid"}, {"go_type": {"import": "github.com/a/pkg", "package": "other", "type": "J"}, "db_type": "json"}]
     return decls, queries, flags, ov
+
+
+def query_chunks(out):
+    """the emitted code of each query (constant, structs, method), keyed by constant name, whatever file it is in"""
+    import re
+    chunks = {}
+    for f, src in (out or {}).items():
+        if not f.endswith(".sql.go"):
+            continue
+        parts = re.split(r"(?m)^const (\w+) = ", src)
+        for j in range(1, len(parts) - 1, 2):
+            chunks[parts[j]] = parts[j + 1].strip()
+    return chunks
 
 
 def job(decls, qfiles, flags, ov):
@@ -101,6 +122,10 @@ def run(tier, seed):
             same = [f for f in r0["out"] if not f.endswith(".sql.go")]
             if any(rm["out"].get(f) != r0["out"][f] for f in same):
                 rep.violation("moving a query to another file changes files other than the query files", dict(replay, moved=queries[k]))
+            if query_chunks(rm["out"]) != query_chunks(r0["out"]):
+                a, b = query_chunks(r0["out"]), query_chunks(rm["out"])
+                rep.violation("moving a query to another file changes the code emitted for a query (%s)" % sorted(k_ for k_ in set(a) | set(b) if a.get(k_) != b.get(k_)),
+                              dict(replay, moved=queries[k]))
             joined = "".join(v for f, v in sorted(rm["out"].items()) if f.endswith(".sql.go"))
             for q in queries:
                 nm = q.split()[2]
